@@ -9,7 +9,10 @@ ASSUMPTIONS = A01 + ["Cantera and user recipes are opaque deterministic function
                      "temperature / mass fractions (cleaned copies: |T|<=1e-8 -> 1, sum(Y)~0 -> Y(O2)=1, the double nearest 1e-8 as "
                      "numpy.isclose compares), the table entries of the box's own shape, and to write [kept, selected columns]",
                      "worker arguments as Chef.__init__ builds them: 0 <= sp_start < sp_end <= ncomp, 0 <= id_temp < ncomp, "
-                     "0 <= idx_O2 < sp_end - sp_start, selected species / reaction columns inside the attribute"]
+                     "0 <= idx_O2 < sp_end - sp_start, selected species / reaction columns inside the attribute: established on "
+                     "bounded skeletons by the real sarray_input, the closing block and the recipe dispatch of Chef.__init__ and "
+                     "set_global_sarrays / unique_box_shapes (Cantera's Solution / SolutionArray are stubs holding names and shapes); "
+                     "that a requested reaction index exists in the mechanism is Cantera's own check"]
 TRUSTED = T01 + ["Cantera SolutionArray; pathos pool contract (replaced by the controllable pool in the harness)"]
 
 
